@@ -6,6 +6,7 @@ package main
 import (
 	"fmt"
 	"math"
+	"strings"
 
 	"github.com/deadsy/sdfx/sdf"
 	v2 "github.com/deadsy/sdfx/vec/v2"
@@ -438,6 +439,11 @@ func checkC03(c *Ctx) {
 			}
 			regs[e.region(p)] = true
 			tol := 1e-9 * (e.scale + pl)
+			if e.scale < 0.14 && strings.Contains(e.desc, "Polygon2D") {
+				// fine-detail polygons: the quadtree snaps clipped end points onto its box edges within the package tolerance
+				// of 1e-9 (absolute), which is no longer negligible against a part of a few hundredths (see C04)
+				tol += 1e-9
+			}
 			d := math.Abs(got - want)
 			if d/(e.scale+pl) > worst {
 				worst = d / (e.scale + pl)
